@@ -1,7 +1,7 @@
 """C02 — requested work is conserved: every request is started once or dropped once."""
 from ..core import hx
 ID = "C02"
-PROPS = ["F1Verif.Props.C02", "F1Verif.Props.FactsC02", "F1Verif.Props.RefineC02", "F1Verif.Props.RefineC02W", "F1Verif.Props.RefineC05S", "F1Verif.Props.RefineC09W"]
+PROPS = ["F1Verif.Props.C02", "F1Verif.Props.FactsC02", "F1Verif.Props.RefineC02", "F1Verif.Props.RefineC02W", "F1Verif.Props.RefineC05S", "F1Verif.Props.RefineC09W", "F1Verif.Props.RefineC08X"]
 ALSO = ["F1Verif.Props.Pool"]
 RULE = ("engine A: random set/none/take sequences on the real pending-counter type vs the model; engine B: scripted "
         "schedules on the real TriggerPool with gated iterations through the yield points pool.trigger.accepted (a tick "
